@@ -58,3 +58,8 @@ Theorem C10_sparse_tiling_independent_refuted : exists lg one tiles1 tiles2 th t
   sparse_corr_code lg one tiles1 th tw t oy ox H W (cons f nil) f <> sparse_corr_code lg one tiles2 th tw t oy ox H W (cons f nil) f.
 Proof. exact sparse_tiling_dependent_refuted. Qed.
 Print Assumptions C10_sparse_tiling_independent_refuted.
+
+(* ---- non-vacuity: a grid of tiles that meets the hypotheses of the tiling theorems (rows cut at 2, columns at 3 and 4) ---- *)
+Import ListNotations.
+Example nv_chain_grid : chain [0; 2; 5]%Z /\ chain [0; 3; 4; 6]%Z /\ hd 0%Z [0; 2; 5]%Z = 0%Z /\ last [0; 2; 5]%Z 0%Z = 5%Z /\ last [0; 3; 4; 6]%Z 0%Z = 6%Z.
+Proof. repeat split; repeat constructor; vm_compute; discriminate. Qed.
